@@ -364,6 +364,7 @@ def run_vector(vec, emb, pool, eid, recv=None, arg=None):
         "rawwf": raw_wf(rettier) and raw_wf(recv),
         "validok": validate_agrees(rettier) and validate_agrees(recv),
         "offgrid": 0, "emb": emb.name, "pool": next((k for k, v in POOLS.items() if v is pool), "ascii"),
+        "variant": eid % 4,          # 1: operands built through a history (mk_tier_primed), 2: result probed for aliasing
     }
     ev["offgrid"] = pj.offgrid
     return ev, ret
